@@ -303,6 +303,11 @@ def c15_scenarios(tier):
     for cfg in configs:
         for fate in FATES:
             out.append({"listener": cfg, "fate": fate})
+    # filters naming things the run does not know (a trailing slash left by completion, a typo, a directory
+    # inside a target, a command nobody defines): the listener sees nothing of them, the run is unaffected
+    for cfg in (["--stdout", "--stderr", "-t", "a/"], ["--stdout", "-t", "a", "nosuch"], ["--stderr", "-t", "a/sub"], ["--stdout", "--stderr", "-c", "nosuch"], ["--stdout", "-t", "nosuch", "-c", "build"]):
+        for fate in ("never", "mid_output"):
+            out.append({"listener": cfg, "fate": fate})
     # clean SIGTERM variant
     for fate in FATES[1:]:
         out.append({"listener": ["--stdout", "--stderr"], "fate": fate, "term": True})
@@ -391,7 +396,17 @@ def c20_run(desc):
         T20 = [{"path": LONG_A}, {"path": LONG_B}] if desc.get("names") == "long" else \
             [{"path": ".ci"}, {"path": "ci"}] if desc.get("names") == "dot" else \
             [{"path": "my,target"}, {"path": "x."}] if desc.get("names") == "odd" else TARGETS20
-        r = sc.Repo(s, "r", T20, commands={t["path"]: {c: "x" for c in cmds} for t in T20}, init_git=False)
+        if desc.get("defs"):
+            # commands mapped through commands.definitions to files whose names say nothing about the command
+            # (a shared tools directory): headers and filters still speak of the command
+            fname = {"build": "compile.sh", "test": "check-all.sh"}
+            T20 = [dict(t, commands={"definitions": {c_: {"path": "tools/%d/%s" % (i_, fname[c_])} for c_ in cmds}}) for i_, t in enumerate(T20)]
+            r = sc.Repo(s, "r", T20, commands={}, init_git=False)
+            for i_, t in enumerate(T20):
+                for c_ in cmds:
+                    r.command_file(t["path"], c_, "x", cmd_dir="tools/%d" % i_, name=fname[c_])
+        else:
+            r = sc.Repo(s, "r", T20, commands={t["path"]: {c: "x" for c in cmds} for t in T20}, init_git=False)
         if desc.get("foreign"):
             r.foreign_cwd()
         c = ctlmod.Controller(s)
@@ -661,6 +676,9 @@ def c20_scenarios(tier):
     # listener and run invoked as -f <abs config> from an unrelated directory
     for s_, t, c in [(["--stdout", "--stderr"], [], []), (["--stdout"], ["a"], ["build"])]:
         out.append({"streams": s_, "targets": t, "commands": c, "short": True, "foreign": True})
+    # commands mapped to files with unrelated names through commands.definitions
+    for s_, t, c in [(["--stdout", "--stderr"], [], []), (["--stdout", "--stderr"], [], ["build"]), (["--stderr"], ["a"], ["test"]), (["--stdout"], [], ["compile"])]:
+        out.append({"streams": s_, "targets": t, "commands": c, "short": True, "defs": True})
     # a listener that also prints its own diagnostics (-v, -vv, -vvv)
     for vb in ("-v", "-vv", "-vvv"):
         out.append({"streams": ["--stdout", "--stderr"], "targets": [], "commands": [], "short": True, "verbosity": vb})
